@@ -105,6 +105,10 @@ def run_case(c: Dict[str, Any]) -> Dict[str, Any]:
             rec['dontcare'] = True
             model['race'] = False
             return
+        if model.get('upstream_closed') and not pending:
+            # the origin has closed and everything it sent is delivered: the proxy ends such a connection by itself, reaper or not
+            rec['dontcare'] = True
+            return
         if pending or idle < timeout:
             if closed:
                 ctl['violations'].append(('active-connection-reaped', rec))
@@ -118,7 +122,7 @@ def run_case(c: Dict[str, Any]) -> Dict[str, Any]:
         K.CLOCK.virtual = (K.CLOCK.virtual or T0) + gap_value(step['gap'], timeout)
         now = K.CLOCK.virtual
         a = step['action']
-        if not model['pending'] and (now - model['last']) > timeout and a in ('client_send', 'origin_small', 'origin_flood', 'client_drain'):
+        if not model['pending'] and (now - model['last']) > timeout and a in ('client_send', 'origin_small', 'origin_flood', 'client_drain', 'origin_close'):
             model['race'] = True
         if a == 'client_send':
             client.out += b'x' * 7 if state != 'half' else b'e'
@@ -131,6 +135,10 @@ def run_case(c: Dict[str, Any]) -> Dict[str, Any]:
             client.read_in_drain = False
             origin_box[0].out += stream(300000, 3)
             model['pending'] = True
+        elif a == 'origin_close' and origin_box:
+            # the origin goes away; what it had sent and the client has not read yet stays queued in the proxy
+            origin_box[0].do_close()
+            model['upstream_closed'] = True
         elif a == 'client_drain':
             client.read_in_drain = True
             if model['pending']:
@@ -157,7 +165,7 @@ def run_case(c: Dict[str, Any]) -> Dict[str, Any]:
         ctl['step'] += 1
         apply(c['steps'][ctl['step']])
         # a flood / drain needs many iterations to move its bytes; the clock stands still meanwhile
-        ctl['wait'] = N + (400 if c['steps'][ctl['step']]['action'] in ('origin_flood', 'client_drain') else 0)
+        ctl['wait'] = N + (400 if c['steps'][ctl['step']]['action'] in ('origin_flood', 'client_drain', 'origin_close') else 0)
     ctl['wait'] = 40       # establish the connection first
     w.on_iteration = tick
     w.stop_when = lambda world: ctl['done']
@@ -203,7 +211,7 @@ GAPS = ['t-1s', 't-1ms', 't', 't+1ms', 't+1s', 't/2', '3t', '0']
 @st.composite
 def cases(draw: Any, mode: str) -> Dict[str, Any]:
     state = draw(st.sampled_from(['tunnel', 'tunnel', 'keepalive', 'half']))
-    acts = ['client_send', 'nothing', 'nothing'] + (['origin_small', 'origin_flood', 'client_drain'] if state != 'half' else [])
+    acts = ['client_send', 'nothing', 'nothing'] + (['origin_small', 'origin_flood', 'client_drain', 'origin_close'] if state != 'half' else [])
     steps = [{'gap': draw(st.sampled_from(GAPS)), 'action': draw(st.sampled_from(acts))} for _ in range(draw(st.integers(1, 6)))]
     return {'timeout': draw(st.sampled_from([1, 2, 10, 60])), 'state': state, 'mode': mode, 'steps': steps}
 
